@@ -65,18 +65,19 @@ static std::string ES(const Event &e) {
     return s;
 }
 
-struct SOp { char kind; Ev ev; long target; };   // 'o' obs, 's' start, 'x' stop, 'r' restart, 'e' run(ev); target -1 = own machine
+struct SOp { char kind; Ev ev; long target; size_t di; };   // 'o' obs, 's' start, 'x' stop, 'r' restart, 'e' run(ev), 'd' table entry di; target -1 = own machine
 typedef std::vector<SOp> Script;
 static size_t g_max_target = 0; static bool g_has_target = false;
 
 static bool p_sop(const std::string &t0, SOp &op) {
     auto at = split(t0, '@');
     if (at.size() > 2) return false;
-    op.target = -1;
+    op.target = -1; op.di = 0;
     if (at.size() == 2) { size_t k; if (!p_nat(at[1], k)) return false; op.target = (long)k; }
     const std::string &t = at[0];
     if (t == "o" || t == "s" || t == "x" || t == "r") { op.kind = t[0]; op.ev = {0, 0}; return true; }
     if (!t.empty() && t[0] == 'e') { op.kind = 'e'; return p_event(t.substr(1), op.ev); }
+    if (!t.empty() && t[0] == 'd') { op.kind = 'd'; op.ev = {0, 0}; return p_nat(t.substr(1), op.di); }
     return false;
 }
 static bool p_script(const std::string &s, Script &out) {
@@ -140,6 +141,8 @@ static std::string view(StateMachine &sm) {
 static void T(Mach *m, const std::string &s) { std::cout << "P T " << m->idx << " " << s << "\n"; }
 static std::string S(int v) { return std::to_string(v); }
 
+struct DefArgs;
+static bool exec_tpl(Mach *t, size_t i);
 static void run_script(Mach *m, const Script &sc) {
     for (auto &op : sc) {
         Mach *t = op.target < 0 ? m : g_m[(size_t)op.target].get();
@@ -147,6 +150,7 @@ static void run_script(Mach *m, const Script &sc) {
         if (op.kind == 'o') { T(m, "obs" + tg + " " + view(t->sm)); continue; }
         std::string before = view(t->sm), name; bool res = false;
         switch (op.kind) {
+            case 'd': name = "def" + std::to_string(op.di); res = exec_tpl(t, op.di); break;
             case 's': name = "start"; res = t->sm.start(); break;
             case 'x': name = "stop"; t->sm.stop(); break;
             case 'r': name = "restart"; res = t->sm.restart(); break;
@@ -162,98 +166,127 @@ static bool reaches(size_t from, size_t to) {
     for (auto &p : g_m[from]->sub) if (reaches(p.second, to)) return true;
     return false;
 }
+// an attachment cycle is reachable from machine k (a `sub` entry of the table may have closed one)
+static bool cyclic_from(size_t k, std::vector<size_t> &path) {
+    for (size_t p : path) if (p == k) return true;
+    path.push_back(k);
+    bool r = false;
+    for (auto &p : g_m[k]->sub) if (cyclic_from(p.second, path)) { r = true; break; }
+    path.pop_back();
+    return r;
+}
 static void print_snap() {
     std::string s;
     for (size_t k = 0; k < g_m.size(); ++k) { if (k) s += " "; s += std::to_string(k) + ":" + view(g_m[k]->sm); }
     std::cout << "P S " << s << "\n";
 }
-static void reset_all() { g_m.clear(); g_cur = -1; g_root = -1; g_tags.clear(); g_tagptr.clear(); g_max_target = 0; g_has_target = false; }
+static void reset_tpl();
+static void reset_all() { g_m.clear(); g_cur = -1; g_root = -1; g_tags.clear(); g_tagptr.clear(); g_max_target = 0; g_has_target = false; reset_tpl(); }
 static void note(const Script &sc) { bool h = false; size_t m = script_max(sc, h); if (h) { g_has_target = true; g_max_target = std::max(g_max_target, m); } }
 static bool targets_ok(const Script &sc) { bool h = false; size_t m = script_max(sc, h); return !h || m < g_m.size(); }
 
-// one definition call on machine m; `late` = after `go` (targets are checked at once, the answer is "P def …")
-static bool def_line(Mach *m, const std::vector<std::string> &w, size_t o, bool late) {
-    const std::string &op = w[o];
+// one definition call, parsed (what the C++ call is given); `tpl` lines keep these for the script op d<i>
+struct DefArgs {
+    std::string op;                       // st rt ev init cb sub
+    int sid = 0, ev = 0, dst = 0, dflt = -1;
+    bool h1 = false, h2 = false;          // st: enter/exit present; rt: guard/action present
+    Script s1, s2;
+    std::vector<int> gevs;
+    std::vector<std::pair<int,int>> tbl;
+    size_t j = 0;
+};
+static std::vector<DefArgs> g_tpl;
+static size_t g_max_d = 0; static bool g_has_d = false;      // largest table entry a script refers to
+static size_t g_max_j = 0; static bool g_has_j = false;      // largest machine a `sub` entry attaches
+static void reset_tpl() { g_tpl.clear(); g_max_d = 0; g_has_d = false; g_max_j = 0; g_has_j = false; }
+static void note_d(const Script &sc) { for (auto &op : sc) if (op.kind == 'd') { g_has_d = true; g_max_d = std::max(g_max_d, op.di); } }
+static bool d_ok(const Script &sc) { for (auto &op : sc) if (op.kind == 'd' && op.di >= g_tpl.size()) return false; return true; }
+
+static bool parse_def(const std::vector<std::string> &w, size_t o, DefArgs &a) {
+    if (o >= w.size()) return false;
+    a.op = w[o];
     size_t n = w.size() - o;
-    const char *pre = late ? "P def " : "P ";
-    if (op == "st" && n == 4) {
-        int sid; bool he, hx; Script se, sx;
-        if (!p_int(w[o+1], sid) || !p_probe(w[o+2], he, se) || !p_probe(w[o+3], hx, sx)) return false;
-        if (late && (!targets_ok(se) || !targets_ok(sx))) return false;
-        note(se); note(sx);
+    if (a.op == "st" && n == 4) return p_int(w[o+1], a.sid) && p_probe(w[o+2], a.h1, a.s1) && p_probe(w[o+3], a.h2, a.s2);
+    if (a.op == "rt" && n == 6) return p_int(w[o+1], a.sid) && p_int(w[o+2], a.ev) && p_int(w[o+3], a.dst) && p_guard(w[o+4], a.h1, a.gevs, a.s1) && p_probe(w[o+5], a.h2, a.s2);
+    if (a.op == "ev" && n == 5) return p_int(w[o+1], a.sid) && p_int(w[o+2], a.ev) && p_table(w[o+3], a.tbl, a.dflt) && p_script(w[o+4], a.s1);
+    if (a.op == "init" && n == 2) return p_int(w[o+1], a.sid);
+    if (a.op == "cb" && n == 2) return p_script(w[o+1], a.s1);
+    if (a.op == "sub" && n == 3) return p_int(w[o+1], a.sid) && p_nat(w[o+2], a.j);
+    return false;
+}
+static bool exec_def(Mach *m, const DefArgs &a);
+static bool exec_tpl(Mach *t, size_t i) { DefArgs a = g_tpl[i]; return exec_def(t, a); }   // a copy: the table may not grow, but keep the call self-contained
+static bool def_is_void(const DefArgs &a) { return a.op == "init" || a.op == "cb"; }
+
+// performs the call on machine m; the return value of the API (false for the two void ones)
+static bool exec_def(Mach *m, const DefArgs &a) {
+    if (a.op == "st") {
+        int sid = a.sid; Script se = a.s1, sx = a.s2;
         StateMachine::ActionFunc en, ex;
-        if (he) en = [m, sid, se](Event e) { T(m, "enter " + S(sid) + " " + ES(e)); run_script(m, se); };
-        if (hx) ex = [m, sid, sx](Event e) { T(m, "exit " + S(sid) + " " + ES(e)); run_script(m, sx); };
-        bool ok = m->sm.newState(sid, en, ex, "L" + S(sid));
-        std::cout << pre << "st " << (ok ? 1 : 0) << "\n";
-        return true;
+        if (a.h1) en = [m, sid, se](Event e) { T(m, "enter " + S(sid) + " " + ES(e)); run_script(m, se); };
+        if (a.h2) ex = [m, sid, sx](Event e) { T(m, "exit " + S(sid) + " " + ES(e)); run_script(m, sx); };
+        return m->sm.newState(sid, en, ex, "L" + S(sid));
     }
-    if (op == "rt" && n == 6) {
-        int src, ev, dst; bool hg = false, ha; std::vector<int> gevs; Script gs, as;
-        if (!p_int(w[o+1], src) || !p_int(w[o+2], ev) || !p_int(w[o+3], dst) || !p_guard(w[o+4], hg, gevs, gs) || !p_probe(w[o+5], ha, as)) return false;
-        if (late && (!targets_ok(gs) || !targets_ok(as))) return false;
-        note(gs); note(as);
+    if (a.op == "rt") {
+        int src = a.sid; std::vector<int> gevs = a.gevs; Script gs = a.s1, as = a.s2;
         size_t idx = m->nroutes[src];
-        StateMachine::GuardFunc g; StateMachine::ActionFunc a;
-        if (hg) g = [m, src, idx, gevs, gs](Event e) {
+        StateMachine::GuardFunc g; StateMachine::ActionFunc act;
+        if (a.h1) g = [m, src, idx, gevs, gs](Event e) {
             bool r = false; for (int x : gevs) if (x == e.id) r = true;
             T(m, "guard " + S(src) + " " + std::to_string(idx) + " " + ES(e) + " " + (r ? "1" : "0"));
             run_script(m, gs);
             return r;
         };
-        if (ha) a = [m, src, idx, as](Event e) { T(m, "act " + S(src) + " " + std::to_string(idx) + " " + ES(e)); run_script(m, as); };
-        bool ok = m->sm.addRoute(src, ev, dst, g, a, "R" + std::to_string(idx));
+        if (a.h2) act = [m, src, idx, as](Event e) { T(m, "act " + S(src) + " " + std::to_string(idx) + " " + ES(e)); run_script(m, as); };
+        bool ok = m->sm.addRoute(src, a.ev, a.dst, g, act, "R" + std::to_string(idx));
         if (ok) m->nroutes[src] = idx + 1;
-        std::cout << pre << "rt " << (ok ? 1 : 0) << "\n";
-        return true;
+        return ok;
     }
-    if (op == "ev" && n == 5) {
-        int sid, ev, dflt = -1; std::vector<std::pair<int,int>> tbl; Script sc;
-        if (!p_int(w[o+1], sid) || !p_int(w[o+2], ev) || !p_table(w[o+3], tbl, dflt) || !p_script(w[o+4], sc)) return false;
-        if (late && !targets_ok(sc)) return false;
-        note(sc);
-        std::string key = ev == 0 ? "*" : S(ev);
+    if (a.op == "ev") {
+        int sid = a.sid, dflt = a.dflt; std::vector<std::pair<int,int>> tbl = a.tbl; Script sc = a.s1;
+        std::string key = a.ev == 0 ? "*" : S(a.ev);
         StateMachine::EventFunc f = [m, sid, key, tbl, dflt, sc](Event e) {
             int r = dflt; for (auto &p : tbl) if (p.first == e.id) { r = p.second; break; }
             T(m, "hdl " + S(sid) + " " + key + " " + ES(e) + " " + S(r));
             run_script(m, sc);
             return r;
         };
-        bool ok = m->sm.addEvent(sid, ev, f);
-        std::cout << pre << "ev " << (ok ? 1 : 0) << "\n";
-        return true;
+        return m->sm.addEvent(sid, a.ev, f);
     }
-    if (op == "init" && n == 2) {
-        int sid; if (!p_int(w[o+1], sid)) return false;
-        m->sm.setInitState(sid);
-        std::cout << pre << "init\n";
-        return true;
-    }
-    if (op == "cb" && n == 2) {
-        Script sc; if (!p_script(w[o+1], sc)) return false;
-        if (late && !targets_ok(sc)) return false;
-        note(sc);
-        m->sm.setStateChangedCallback([m, sc](int from, int to, Event e) {
-            T(m, "chg " + S(from) + " " + S(to) + " " + ES(e)); run_script(m, sc);
+    if (a.op == "init") { m->sm.setInitState(a.sid); return false; }
+    if (a.op == "cb") {
+        // the callback may be REPLACED while it runs (a `cb` entry of the table performed from inside the notification:
+        // `state_changed_cb_ = std::move(cb)` destroys the executing closure); the body therefore works on copies
+        auto sp = std::make_shared<const Script>(a.s1);
+        m->sm.setStateChangedCallback([m, sp](int from, int to, Event e) {
+            Mach *mm = m; std::shared_ptr<const Script> keep = sp;
+            T(mm, "chg " + S(from) + " " + S(to) + " " + ES(e)); run_script(mm, *keep);
         });
-        std::cout << pre << "cb\n";
-        return true;
+        return false;
     }
-    if (op == "sub" && n == 3) {
-        int sid; size_t j;
-        if (!p_int(w[o+1], sid) || !p_nat(w[o+2], j)) return false;
-        if (j >= g_m.size() || (long)j == g_cur || reaches(j, m->idx)) return false;   // no cycles
-        bool ok = m->sm.setSubStateMachine(sid, &g_m[j]->sm);
-        if (ok) m->sub[sid] = j;
-        std::cout << pre << "sub " << (ok ? 1 : 0) << "\n";
-        return true;
-    }
-    if (!late && op == "end" && n == 1) {
+    // sub
+    bool ok = m->sm.setSubStateMachine(a.sid, &g_m[a.j]->sm);
+    if (ok) m->sub[a.sid] = a.j;
+    return ok;
+}
+
+// one definition line on machine m; `late` = after `go` (targets are checked at once, the answer is "P def …")
+static bool def_line(Mach *m, const std::vector<std::string> &w, size_t o, bool late) {
+    if (!late && w[o] == "end" && w.size() - o == 1) {
         std::cout << "P end " << g_cur << "\n";
         g_cur = -1;
         return true;
     }
-    return false;
+    DefArgs a;
+    if (!parse_def(w, o, a)) return false;
+    if (late && (!targets_ok(a.s1) || !targets_ok(a.s2) || !d_ok(a.s1) || !d_ok(a.s2))) return false;
+    if (a.op == "sub" && (a.j >= g_m.size() || (long)a.j == g_cur || reaches(a.j, m->idx))) return false;   // no cycles
+    note(a.s1); note(a.s2); note_d(a.s1); note_d(a.s2);
+    bool ok = exec_def(m, a);
+    const char *pre = late ? "P def " : "P ";
+    if (def_is_void(a)) std::cout << pre << a.op << "\n";
+    else std::cout << pre << a.op << " " << (ok ? 1 : 0) << "\n";
+    return true;
 }
 
 // ---- canonical text of what toJson() emitted (same text: lean/TboxModel/C16/Json.lean `aJson`) ----
@@ -310,6 +343,8 @@ static bool call_line(std::vector<std::string> w) {
     }
     StateMachine &sm = g_m[k]->sm;
     if (w.size() == 1 && w[0] == "json") {          // toJson() is const: the snapshot after it shows that nothing moved
+        std::vector<size_t> path;
+        if (cyclic_from(k, path)) return false;      // toJson() recurses without bound on an attachment cycle
         Json js; sm.toJson(js);
         std::cout << "P J " << j_machine(js) << "\n";
         print_snap();
@@ -340,6 +375,16 @@ int main() {
             } else ok = call_line(w);
         }
         else if (g_cur >= 0) ok = def_line(g_m[(size_t)g_cur].get(), w, 0, false);
+        else if (w[0] == "tpl") {
+            DefArgs a;
+            if (parse_def(w, 1, a)) {
+                note(a.s1); note(a.s2); note_d(a.s1); note_d(a.s2);
+                if (a.op == "sub") { g_has_j = true; g_max_j = std::max(g_max_j, a.j); }
+                std::cout << "P tpl " << g_tpl.size() << "\n";
+                g_tpl.push_back(a);
+                ok = true;
+            }
+        }
         else if (w.size() == 1 && w[0] == "mach") {
             g_m.emplace_back(new Mach());
             g_cur = (long)g_m.size() - 1;
@@ -349,7 +394,8 @@ int main() {
             ok = true;
         } else if (w.size() == 2 && w[0] == "go") {
             size_t k;
-            if (p_nat(w[1], k) && k < g_m.size() && (!g_has_target || g_max_target < g_m.size())) {
+            if (p_nat(w[1], k) && k < g_m.size() && (!g_has_target || g_max_target < g_m.size()) &&
+                (!g_has_j || g_max_j < g_m.size()) && (!g_has_d || g_max_d < g_tpl.size())) {
                 g_root = (long)k;
                 std::cout << "P go\n";
                 print_snap();
